@@ -65,6 +65,8 @@ def replay_family(fam, tier, variant, workdir):
             cmd += ["--max-faults", str(variant["max_faults"])]
         if variant.get("every"):
             cmd += ["--every", str(variant["every"])]
+        if variant.get("max_items"):
+            cmd += ["--max-items", str(variant["max_items"])]
         procs.append(subprocess.Popen(["timeout", "1200"] + cmd, stdout=subprocess.PIPE, stderr=subprocess.PIPE,
                                       env=dict(os.environ, RUST_BACKTRACE="0", VH_HL=str(variant.get("hl", 64))), preexec_fn=lambda: __import__("resource").setrlimit(__import__("resource").RLIMIT_AS, (8 << 30, 8 << 30))))
     runs = 0
@@ -195,6 +197,10 @@ def run_clone_check(prop, tier):
         variants.append(("big", {"unit": 800000, "comp": "none", "mode": "plain", "every": 40 if tier == "quick" else 100}))
         # ... and chunks of 2.2 - 6.6 MB (beyond a 4 MiB staging buffer) where one read feeds several, possibly overlapping, destinations
         variants.append(("multidest", {"unit": 2200000, "comp": "none", "mode": "plain", "every": 8 if tier == "quick" else 2}))
+    if prop in ("C06", "C03"):
+        # amounts, not shapes: layouts whose in-place re-ordering passes far more than 64 MiB through the in-memory store over the whole run
+        # (units of 8 MB: chunks of 8 - 32 MB, sources of 50 - 450 MB; the heavy-duplicate layouts are left out at this size)
+        variants.append(("big", {"unit": 8000000, "comp": "none", "mode": "plain", "every": 75 if tier == "quick" else 25, "max_items": 16}))
     if prop in ("C02", "C06"):
         # truncated hash lengths (A1 guard: the harness checks that distinct contents keep distinct truncated hashes)
         variants.append(("seeds", {"unit": 4, "comp": "none", "mode": "plain", "hl": 8}))
